@@ -1,8 +1,9 @@
 import PedalModel.DriverLoop
+import PedalModel.Source
 open Pedal
 
-/- Line-protocol driver for C12: replace the stub dispatch with the model's request handlers. -/
 def dispatch : List String → String
+  | "verify" :: ts => Source.handle ts
   | _ => "bad-request"
 
 def main : IO Unit := driverMain dispatch
